@@ -57,13 +57,14 @@ def replay(case):
         return False, f'{name}: {type(e).__name__}: {e}'
 
 
-def spec_names(max_len):
-    """all macro names of the documented grammar up to max_len (independent of the module's regexes)"""
+def spec_names(max_len, slack):
+    """all macro names of the documented grammar up to the bounds (independent of the module's regexes)"""
     from bounded import C19_cases as K
     from specs import C19_macros as M
     out = set()
     for kind, rx, nargs in M.SIMPLE:
-        out |= set(K.names_of(rx, max_len))
+        out |= set(K.names_of(rx, K.family_bound(rx, max_len, slack)))
+    max_len = max(max_len, 6 + slack)
 
     def trees(n):          # all pair-tree strings (without the final R) of length n
         if n < 3:
@@ -94,8 +95,9 @@ def run(ck: Check) -> int:
         ck.function(h, name=f'pytezos.michelson.macros:{h.__name__}')
     for f in (mac.build_pxr_tree, mac.traverse_pxr_tree, mac.dip_n):
         ck.function(f)
-    L = 11 if ck.thorough() else 8
+    L, slack = (11, 5) if ck.thorough() else (8, 3)
     ck.bound('max_name_length', L)
+    ck.bound('open_family_bound', f'max({L}, shortest name of the family + {slack}); finite families completely')
     ck.bound('registered_regexes', len(mac.macros))
     ck.assume('the meaning of every macro is the one of specs/C19_macros.py (written from the macro section of the Michelson documentation)')
     ck.assume('the reference interpreter specs/michelson_ref.py (validated against recorded Octez runs, see C01) gives the meaning of the core '
@@ -105,10 +107,10 @@ def run(ck: Check) -> int:
             'names: every string accepted by a registered regex up to max_name_length + every name of the documented grammar up to the same length')
     names = {}
     for rx, h in mac.macros:
-        for n in K.names_of(rx, L):
+        for n in K.names_of(rx, K.family_bound(rx, L, slack)):
             names.setdefault(n, []).append(h.__name__)
     n_regex_names = len(names)
-    for n in spec_names(L):
+    for n in spec_names(L, slack):
         names.setdefault(n, [])
     n_valid = n_invalid = n_runs = 0
     for name in sorted(names, key=lambda s: (len(s), s)):
@@ -133,7 +135,7 @@ def run(ck: Check) -> int:
                 findings += f
                 n_runs += n
                 findings += K.check_arity(mac.expand_macro, name)
-                if kind == 'pair' and len(name) + 2 <= L:
+                if kind == 'pair' and 'UN' + name in names:
                     findings += K.check_inverse(mac.expand_macro, name)
                     n_runs += 2
                 for label, annots, _ in K.annotation_variants(name):
@@ -142,7 +144,7 @@ def run(ck: Check) -> int:
                                 if len(name) == 6 and label == 'plain' else None)
         for clause, msg, wclass, case in findings:
             ck.violation(f'expand_macro::{clause}', msg, case=case, replay=REPLAY, wclass=f'{wclass} [{name if len(name) <= 8 else name[:8] + "…"}]')
-    ck.note(f'{n_regex_names} names accepted by the registered regexes up to length {L} ({n_invalid} of them are not macros of the documented '
+    ck.note(f'{n_regex_names} names accepted by the registered regexes up to the bounds ({n_invalid} of them are not macros of the documented '
             f'grammar), {n_valid} macro names checked, {n_runs} runs of the reference interpreter on symbolic stacks')
     ck.exhaustive = True
     return ck.finish('other',
